@@ -42,6 +42,7 @@ type Program struct {
 	Lanes     []*LaneSpec
 	Readonly  []*ReadonlySpec
 	NoEscape  []*NoEscapeSpec
+	FieldOrder []*FieldOrderSpec
 	StoresVia []*StoresViaSpec
 	Unrolled  []*UnrolledSpec
 	Owned     map[string][]string // pkgpath.Type -> owned receiver fields
@@ -243,6 +244,7 @@ func (p *Program) parseSpecFuncs(fset *token.FileSet, f *ast.File, pkgPath strin
 		p.Lanes = append(p.Lanes, parseLaneBlocks(pkgPath, lines, where)...)
 		p.Readonly = append(p.Readonly, parseReadonlyBlocks(pkgPath, lines, where)...)
 		p.NoEscape = append(p.NoEscape, parseNoEscapeBlocks(pkgPath, lines, where)...)
+		p.FieldOrder = append(p.FieldOrder, parseFieldOrderBlocks(pkgPath, lines, where)...)
 		p.StoresVia = append(p.StoresVia, parseStoresViaBlocks(pkgPath, lines, where)...)
 		p.Unrolled = append(p.Unrolled, parseUnrolledBlocks(pkgPath, lines, where)...)
 	}
